@@ -177,7 +177,7 @@ func init() {
 	for _, p := range []string{"C01", "C06", "C20"} {
 		props[p] = common.UniverseProperty(p, common.UniImpl{V2: true, Load: loadV1, LookupChecks: lookupChecksV1, LoadHistory: loadHistoryV2, LoadHistoryLookups: loadHistoryV2L})
 	}
-	props["C11"] = common.LoadingProperty(common.UniImpl{V2: true, Load: loadV1, LoadHistory: loadHistoryV2, LoadHistoryLookups: loadHistoryV2L, RequestTwice: requestTwiceV2})
+	props["C11"] = common.LoadingProperty(common.UniImpl{V2: true, Load: loadV1, LoadHistory: loadHistoryV2, LoadHistoryLookups: loadHistoryV2L, RequestTwice: requestTwiceV2, RequestSeq: requestSeqV2})
 }
 
 // ---- C11: loading histories through the real v2 Parser (scratch module; LoadPackagesTo needs cwd) ----
@@ -254,6 +254,24 @@ func loadHistoryV2L(prog *common.Program, initial []string, steps [][]string, lo
 		}
 	}
 	return snapshotUniverse(u), stable, p.UserRequestedPackages(), nil
+}
+
+// requestSeqV2 asks one Parser for the packages one after the other and returns the error of each request
+func requestSeqV2(prog *common.Program, pkgs []string) []error {
+	root, err := os.MkdirTemp("", "verif-mod-")
+	if err != nil {
+		return []error{err}
+	}
+	defer os.RemoveAll(root)
+	if err := writeModule(prog, root); err != nil {
+		return []error{err}
+	}
+	p := parser.New()
+	var errs []error
+	for _, pkg := range pkgs {
+		errs = append(errs, p.LoadPackagesWithConfigForTesting(pkgConfig(root), pkg))
+	}
+	return errs
 }
 
 func requestTwiceV2(prog *common.Program, pkg string) (error, error) {
